@@ -46,8 +46,8 @@ TOL = 1e-9
 # ----------------------------------------------------------------------------- data sets
 
 
-def _da(seed, salt, n=8, t0=0, shift=0.0, fac=1.0, name="sst"):
-    M = D.make_matrix(n, 6, "geometric", 1.0, False, seed, salt=salt) * fac + shift
+def _da(seed, salt, n=8, t0=0, shift=0.0, fac=1.0, name="sst", spec="geometric"):
+    M = D.make_matrix(n, 6, spec, 1.0, False, seed, salt=salt) * fac + shift
     da = D.da_grid(M, 3, 2, lats=[-50.0, 0.0, 60.0], name=name)
     da = da.assign_coords(time=np.arange(t0, t0 + n))
     da.attrs["units"] = "K"
@@ -70,7 +70,7 @@ def datasets(seed, cross=False):
     """name -> object. Groups: A = {D1, D2, DnewA} share a structure; B = {D3, DnewB}."""
     d = {
         "D1": _da(seed, 1),
-        "D2": _da(seed, 2, shift=5.0, fac=2.0),
+        "D2": _da(seed, 2, shift=5.0, fac=2.0, spec="near_equal_var"),  # nearly equal variances: rotation re-orders the modes
         "DnewA": _da(seed, 3, n=4, t0=100),
         "D3": _ds(seed, 4),
         "DnewB": _ds(seed, 5, n=3, t0=200),
@@ -120,7 +120,7 @@ def new_system(subject):
     elif subject in ("MCA", "MCA+Rotator"):
         s["model"] = xe.cross.MCA(n_modes=2, use_pca=True, n_pca_modes="all", random_state=3)
     if subject == "EOF+Rotator":
-        s["rot"] = xe.single.EOFRotator(n_modes=2, power=1)
+        s["rot"] = xe.single.EOFRotator(n_modes=3, power=1)
     if subject == "MCA+Rotator":
         s["rot"] = xe.cross.MCARotator(n_modes=2, power=1)
     if subject == "EOF+Bootstrapper":
